@@ -20,7 +20,7 @@ var shapes = [][2]int{
 	{0x11, 20}, {0x11, 19}, {0x13, 64}, {0x1e, 32}, {0x56, 32},
 	{0x00, 0}, {0x00, 5}, {0x00, 128}, {0x00, 129},
 	{0xd5, 16}, {0xd5, 20}, // md5
-	{0x18, 32},             // shake-128: not allowed
+	{0x18, 32}, // shake-128: not allowed
 	{0xb213, 19}, {0xb213, 20}, {0xb214, 20}, {0xb220, 32}, {0xb240, 64}, {0xb241, 20}, {0xb253, 20}, {0xb254, 20}, {0xb260, 32}, {0xb261, 32},
 	{0x22, 8}, {0x1012, 32}, {0x9999, 32}, {0xfffffff, 40},
 }
